@@ -351,6 +351,8 @@ class Ctx:
             if not goals or unreached:
                 res['status'] = 'broken'; res['why'] = 'vacuous: unreachable goals %s' % [(g['file'], g['line']) for g in unreached] if goals else 'no reach goals'
                 return res
+        if os.environ.get('VF_COVER_ONLY'):     # maintenance scan: reachability twins only (finds vacuous/broken harnesses quickly); never a verdict
+            res['status'] = 'no_verdict'; res['why'] = 'cover-only scan (VF_COVER_ONLY): reachability twin ok, verification run skipped'; return res
         env = None
         if h.backend == 'z3new':
             shim = os.path.join(s.work, 'z3shim'); os.makedirs(shim, exist_ok=True)
